@@ -25,6 +25,7 @@ type c20Watch struct {
 	opens   atomic.Int32
 	closes  atomic.Int32
 	closeAt atomic.Int64 // logical time Close() was called by the harness (0 = never)
+	actors  int          // lifecycle part: PeerConnection.Close + own Close actions (0 = use the script's actor count)
 }
 
 type c20Pair struct {
@@ -92,7 +93,9 @@ func c20Rank(s int64) int { return int(s) } // connecting=1 < open=2 < closing=3
 func TestVerifC20(t *testing.T) { //nolint:cyclop,gocognit,maintidx
 	run := kit.Start(t, "C20", "scripted interleavings of the racing actors on real connected pairs — opener parked in handleOpen, local Close/GracefulClose "+
 		"parked between its closed-test and the closing store, read-loop exit after a remote close parked before the closed store, PeerConnection.Close — "+
-		"plus perturbed random stress; every store to readyState is bracketed (exact order). Non-trivial = the channel saw ≥2 stores and ≥2 actors; "+
+		"plus perturbed random stress, plus a lifecycle part: PeerConnection.Close/GracefulClose at a random phase of the transport's life (never negotiated, "+
+		"only local / only remote offer applied, answer never delivered, inside the ICE/DTLS/SCTP handshake, connected) with channels of random kinds created "+
+		"before / after the phase / racing the close and closed before / after / racing it; every store to readyState is bracketed (exact order). Non-trivial = the channel saw ≥2 stores and ≥2 actors; "+
 		"distinct by script name + store sequence")
 	defer run.Finish()
 	sched := kit.NewSched(kit.Seed())
@@ -115,7 +118,18 @@ func TestVerifC20(t *testing.T) { //nolint:cyclop,gocognit,maintidx
 				}
 			}
 			desc := fmt.Sprintf("%s/%s: %s", label, w.name, strings.Join(seq, " "))
-			run.Case(desc, len(evs) >= 2 && actors >= 2)
+			nActors := actors
+			if w.actors > 0 { // per-channel count: the closers recorded by the workload, plus the opener if it stored open
+				nActors = w.actors
+				for _, e := range evs {
+					if DataChannelState(e.B) == DataChannelStateOpen {
+						nActors++
+
+						break
+					}
+				}
+			}
+			run.Case(desc, len(evs) >= 2 && nActors >= 2)
 			run.Count("stores", len(evs))
 			for _, s := range seq {
 				run.Seen("store_edges", s)
@@ -494,5 +508,9 @@ func TestVerifC20(t *testing.T) { //nolint:cyclop,gocognit,maintidx
 			analyse(i, "random", p, 2)
 		}
 	}
+
+	// ---- lifecycle part: the connection is closed at every phase of the transport's life (c20_lifecycle_test.go)
+	c20Lifecycle(c20LifeEnv{run: run, sched: sched, wd: wd, analyse: analyse, finishPair: finishPair, sendProbe: sendProbe},
+		nScripted+nRand, kit.N(96, 1200))
 	run.Set("hook_passes", sched.AllPasses())
 }
